@@ -585,7 +585,9 @@ func (y *vsSys) registrationProbes(s *vsState) *engine.Violation {
 	probes := []probe{
 		{"proposal-id-0", func() error { return k.RegisterExecutorChangePlan(0, h, valOf("o3"), "m", good, "i", e) }},
 		{"height-0", func() error { return k.RegisterExecutorChangePlan(1, 0, valOf("o3"), "m", good, "i", e) }},
-		{"undecodable-key", func() error { return k.RegisterExecutorChangePlan(1, h, valOf("o3"), "m", `{"@type":"/cosmos.crypto.ed25519.PubKey","key":"!!"}`, "i", e) }},
+		{"undecodable-key", func() error {
+			return k.RegisterExecutorChangePlan(1, h, valOf("o3"), "m", `{"@type":"/cosmos.crypto.ed25519.PubKey","key":"!!"}`, "i", e)
+		}},
 		{"key-not-json", func() error { return k.RegisterExecutorChangePlan(1, h, valOf("o3"), "m", "garbage", "i", e) }},
 		{"bad-operator", func() error { return k.RegisterExecutorChangePlan(1, h, "notanaddress", "m", good, "i", e) }},
 		{"operator-with-account-prefix", func() error { return k.RegisterExecutorChangePlan(1, h, world.Addr("o3").String(), "m", good, "i", e) }},
